@@ -499,4 +499,49 @@ theorem explicit_mem_extend : ∀ (ms : List (Name × Option Int)) (tbl : List (
 theorem table_eq_extend (ms : List (Name × Option Int)) : table ms = extend [] ms := by
   unfold table extend; simp
 
+/-! ### resuming a fold: calls made on a table that earlier members built -/
+
+theorem foldFrom_cons_ok {e e' : EnumType} {m : Member} (idx : Nat) (rest : List Member) (hs : e.step m = .ok e') :
+    foldFrom e idx (m :: rest) = foldFrom e' (idx + 1) rest := by
+  rw [foldFrom]; simp only [hs]
+
+theorem foldFrom_cons_err {e : EnumType} {m : Member} {err : EnumErr} (idx : Nat) (rest : List Member)
+    (hs : e.step m = .error err) :
+    foldFrom e idx (m :: rest) = ((foldFrom e (idx + 1) rest).1, (idx, err) :: (foldFrom e (idx + 1) rest).2) := by
+  rw [foldFrom]; simp only [hs]
+
+/-- the member index only labels the errors -/
+theorem foldFrom_shift (b : List Member) : ∀ (e : EnumType) (i j : Nat),
+    foldFrom e (i + j) b = ((foldFrom e i b).1, (foldFrom e i b).2.map fun p => (p.1 + j, p.2)) := by
+  induction b with
+  | nil => intro e i j; simp [foldFrom]
+  | cons m rest ih =>
+    intro e i j
+    cases hs : e.step m with
+    | ok e' =>
+      rw [foldFrom_cons_ok _ _ hs, foldFrom_cons_ok _ _ hs, show i + j + 1 = i + 1 + j by omega]
+      exact ih e' (i + 1) j
+    | error err =>
+      rw [foldFrom_cons_err _ _ hs, foldFrom_cons_err _ _ hs, show i + j + 1 = i + 1 + j by omega, ih e (i + 1) j]
+      simp
+
+theorem foldFrom_append (b : List Member) : ∀ (a : List Member) (e : EnumType) (idx : Nat),
+    foldFrom e idx (a ++ b) =
+      ((foldFrom (foldFrom e idx a).1 (idx + a.length) b).1,
+       (foldFrom e idx a).2 ++ (foldFrom (foldFrom e idx a).1 (idx + a.length) b).2) := by
+  intro a
+  induction a with
+  | nil => intro e idx; simp [foldFrom]
+  | cons m rest ih =>
+    intro e idx
+    simp only [List.cons_append, List.length_cons]
+    cases hs : e.step m with
+    | ok e' =>
+      rw [foldFrom_cons_ok _ _ hs, foldFrom_cons_ok _ _ hs, ih e' (idx + 1),
+        show idx + 1 + rest.length = idx + (rest.length + 1) by omega]
+    | error err =>
+      rw [foldFrom_cons_err _ _ hs, foldFrom_cons_err _ _ hs, ih e (idx + 1),
+        show idx + 1 + rest.length = idx + (rest.length + 1) by omega]
+      simp
+
 end Goyang.Lemmas.Enum
